@@ -3,6 +3,7 @@ import Hive.Proofs.SerixPrim
 import Hive.Proofs.SerixCanonicalValidators
 import Hive.Proofs.SerixCanonicalObjects
 import Hive.Proofs.SerixCanonicalPrim
+import Hive.Proofs.SerixTotalRules
 import Hive.Gen.C03_Consts
 import Hive.Gen.C03_Skel
 /-!
@@ -538,6 +539,151 @@ theorem C03_validator_example :
     feed .lexNd {} [[1], [1, 0], [1, 0], [0], [2]] = [none, none, some .arrUnique, some .arrOrder, none] ∧
     chainFeed (chainInit { noDups := true, one8 := true }) [[7, 1], [7, 2], [7, 1]] = [none, some .arrTypeUnique, some .arrUnique] := by
   decide
+
+/-- **What the validating `Decode` accepts obeys every array rule** (the decode-side twin of `C03_rules_exact`): the
+element count read from the prefix lies inside the bounds, the element encodings — the consumed bytes behind the prefix cut
+into the pieces the element decoder consumed — satisfy `validSeq` (no duplicates / lexical order / at most one of each
+type byte or word, exactly as the validators decide it: `C03_validators_exact`), and every must-occur type is present. -/
+theorem C03_decode_slice_rules (lp : LP) (r : Rules) (e : Ty) (b : Bytes) (st : Bool) (vs : List Val) (n : Nat)
+    (h : decode (.slice lp r e) b ⟨true, st⟩ = .ok (.l vs, n)) :
+    ∃ (w : Nat) (encs : List Bytes), lp.width = some w ∧ w ≤ n ∧ n ≤ b.length ∧
+      vs.length = leNat (b.take w) ∧ r.boundsOk vs.length = true ∧
+      encs.length = vs.length ∧ encs.flatten = (b.drop w).take (n - w) ∧ validSeq r encs = true ∧
+      mustOccurOk r e vs = .ok () :=
+  decode_slice_rules lp r e b st vs n h
+
+/-! ### The layout of every `WriteX` of the `Serializer` chain
+
+The `C03_layout_*` theorems above are about the serix model; these say the same for the chain model one layer below
+(`wOp`, driven call by call by `harness/c03/prim`): whenever a call completes without storing an error, the bytes it
+appended are the documented layout.  (`WriteSliceOfByteSlices`: `C03_write_seq_refines`; the object calls write what
+their objects serialize to, `WritePayload` behind a uint32 marker: `C03_payload_marker_canonical`.) -/
+
+theorem wLen_done {lp : LP} {l : Nat} {p : Bytes} (h : wLen lp l = .done p none) :
+    ∃ w, lp.width = some w ∧ l < 256 ^ w ∧ p = leBytes w l := by
+  unfold wLen at h
+  split at h
+  · cases h
+  · rename_i w hw
+    split at h
+    · rename_i hl
+      simp only [WOut.done.injEq, and_true] at h
+      exact ⟨w, hw, hl, h.symm⟩
+    · simp at h
+
+/-- `WriteNum`: `w` bytes, byte `i` = `x mod 256^w / 256^i mod 256` (little endian, two's complement); `WriteBool`: one
+byte 0 / 1; `WriteByte`, `WriteBytes`: the bytes themselves; `WriteVariableByteSlice` / `WriteString`: a length prefix of
+the given width holding the length, then the payload, the length inside the bounds; `WriteTime`: the saturated
+nanoseconds as 8 bytes; `WriteUint256`: 32 bytes of a number in `[0, 2^256)`; `WritePayloadLength`: 4 bytes; a type code:
+1 or 4 bytes. -/
+theorem C03_prim_layout :
+    (∀ w x b, wOp (.num w x) = .done b none →
+      b.length = w ∧ ∀ i, i < w → b[i]? = some (UInt8.ofNat ((x % (256 : Int) ^ w).toNat / 256 ^ i % 256))) ∧
+    (∀ v b, wOp (.bool v) = .done b none → b = [if v then 1 else 0]) ∧
+    (∀ x b, wOp (.byte x) = .done b none → b = [UInt8.ofNat x]) ∧
+    (∀ bs b, wOp (.fixed bs) = .done b none → b = bs) ∧
+    (∀ lp mn mx bs b, wOp (.varBytes lp mn mx bs) = .done b none →
+      ∃ w, lp.width = some w ∧ bs.length < 256 ^ w ∧ b = leBytes w bs.length ++ bs ∧
+        (mx = 0 ∨ bs.length ≤ mx) ∧ (mn = 0 ∨ mn ≤ bs.length)) ∧
+    (∀ lp mn mx bs b, wOp (.str lp mn mx bs) = .done b none →
+      ∃ w, lp.width = some w ∧ bs.length < 256 ^ w ∧ b = leBytes w bs.length ++ bs ∧
+        (mx = 0 ∨ bs.length ≤ mx) ∧ (mn = 0 ∨ mn ≤ bs.length)) ∧
+    (∀ x b, wOp (.time x) = .done b none → b = leBytes 8 (timeToU64 x) ∧ b.length = 8) ∧
+    (∀ x b, wOp (.u256 x) = .done b none → ∃ n : Int, x = some n ∧ 0 ≤ n ∧ n < (2 : Int) ^ 256 ∧ b = leBytes 32 n.toNat ∧ b.length = 32) ∧
+    (∀ n b, wOp (.payloadLen n) = .done b none → b = leBytes 4 n ∧ b.length = 4) ∧
+    (∀ c b, wOp (.code c) = .done b none → b = leBytes c.den.width c.n ∧ (b.length = 1 ∨ b.length = 4)) := by
+  refine ⟨?_, ?_, ?_, ?_, ?_, ?_, ?_, ?_, ?_, ?_⟩
+  · intro w x b h
+    simp only [wOp, WOut.done.injEq, and_true] at h
+    subst h
+    exact ⟨leBytes_length _ _, fun i hi => by rw [leBytes_getElem?, if_pos hi]⟩
+  · intro v b h
+    simp only [wOp, WOut.done.injEq, and_true] at h
+    exact h.symm
+  · intro x b h
+    simp only [wOp, WOut.done.injEq, and_true] at h
+    exact h.symm
+  · intro bs b h
+    simp only [wOp, WOut.done.injEq, and_true] at h
+    exact h.symm
+  · intro lp mn mx bs b h
+    simp only [wOp] at h
+    split at h
+    · simp at h
+    · rename_i h1
+      split at h
+      · simp at h
+      · rename_i h2
+        cases hl : wLen lp bs.length with
+        | panic => simp [hl] at h
+        | done p e =>
+          cases e with
+          | some e => simp [hl] at h
+          | none =>
+            simp only [hl, WOut.done.injEq, and_true] at h
+            obtain ⟨w, hw, hlt, rfl⟩ := wLen_done hl
+            refine ⟨w, hw, hlt, h.symm, ?_, ?_⟩
+            · simp only [Bool.and_eq_true, decide_eq_true_eq, not_and, Nat.not_lt] at h1
+              by_cases hm : mx = 0
+              · exact Or.inl hm
+              · exact Or.inr (h1 (by omega))
+            · simp only [Bool.and_eq_true, decide_eq_true_eq, not_and, Nat.not_lt] at h2
+              by_cases hm : mn = 0
+              · exact Or.inl hm
+              · exact Or.inr (h2 (by omega))
+  · intro lp mn mx bs b h
+    simp only [wOp] at h
+    split at h
+    · simp at h
+    · rename_i h1
+      split at h
+      · simp at h
+      · rename_i h2
+        cases hl : wLen lp bs.length with
+        | panic => simp [hl] at h
+        | done p e =>
+          cases e with
+          | some e => simp [hl] at h
+          | none =>
+            simp only [hl, WOut.done.injEq, and_true] at h
+            obtain ⟨w, hw, hlt, rfl⟩ := wLen_done hl
+            refine ⟨w, hw, hlt, h.symm, ?_, ?_⟩
+            · simp only [Bool.and_eq_true, decide_eq_true_eq, not_and, Nat.not_lt] at h1
+              by_cases hm : mx = 0
+              · exact Or.inl hm
+              · exact Or.inr (h1 (by omega))
+            · simp only [Bool.and_eq_true, decide_eq_true_eq, not_and, Nat.not_lt] at h2
+              by_cases hm : mn = 0
+              · exact Or.inl hm
+              · exact Or.inr (h2 (by omega))
+  · intro x b h
+    simp only [wOp, WOut.done.injEq, and_true] at h
+    subst h
+    exact ⟨rfl, leBytes_length _ _⟩
+  · intro x b h
+    cases x with
+    | none => simp [wOp] at h
+    | some n =>
+      simp only [wOp] at h
+      split at h
+      · simp at h
+      · rename_i h1
+        split at h
+        · simp at h
+        · rename_i h2
+          simp only [WOut.done.injEq, and_true] at h
+          subst h
+          exact ⟨n, rfl, by omega, by omega, rfl, leBytes_length _ _⟩
+  · intro n b h
+    simp only [wOp, WOut.done.injEq, and_true] at h
+    subst h
+    exact ⟨rfl, leBytes_length _ _⟩
+  · intro c b h
+    simp only [wOp, Code.bytes, WOut.done.injEq, and_true] at h
+    subst h
+    refine ⟨rfl, ?_⟩
+    rw [leBytes_length]
+    cases c.den <;> simp [Den.width]
 
 /-- **Reverse direction at the level of the chains, for every array rule.**  Whatever the validating
 `ReadSequenceOfObjects` accepts — every prefix width, every combination of bounds, no-duplicates, lexical order, at most
